@@ -8,6 +8,7 @@ import (
 	"fmt"
 	"sort"
 	"strings"
+	"sync"
 
 	"github.com/wolimst/lib-secs2-hsms-go/pkg/ast"
 	"github.com/wolimst/lib-secs2-hsms-go/pkg/parser/hsms"
@@ -27,6 +28,7 @@ type Shared struct {
 	Text2   string
 	Bytes   []byte // shared HSMS bytes (read-only)
 	Big     []byte // shared HSMS bytes of a message with 2048-element arrays (read-only)
+	Deep    []byte // shared HSMS bytes of a message nested 140 lists deep (read-only)
 	Fill    map[string]interface{}
 	EllFill map[string]interface{}
 }
@@ -54,14 +56,32 @@ func NewShared() *Shared {
 	s.Text = "S1F13 W\n<L <A x> <B 1>>\n."
 	s.Text2 = "S6F11 [W] n // c\n<L <U4 1 v> <A[..4] w> ...>\n."
 	s.Bytes = mk().ToBytes() // the bytes of an equal twin: s.Compl itself stays untouched
-	bigVals := make([]interface{}, 2048)
-	for i := range bigVals {
-		bigVals[i] = i
-	}
-	s.Big = ast.NewHSMSDataMessage("", 2, 1, 0, "H->E", ast.NewListNode(ast.NewUintNode(2, bigVals...), ast.NewIntNode(4, bigVals...)), 1, []byte{0, 0, 0, 1}).ToBytes()
+	s.Big, s.Deep = bigInputs()
 	s.Fill = map[string]interface{}{"a": 9, "c": "text", "d": -4, "x": 1, "y": 2, "s": "abc", "b": ast.NewBooleanNode(true)}
 	s.EllFill = map[string]interface{}{"...[0]": 1, "...[1]": 1}
 	return s
+}
+
+var (
+	inputsOnce          sync.Once
+	bigBytes, deepBytes []byte
+)
+
+// bigInputs builds the two large read-only inputs once (they are expensive to build and never written).
+func bigInputs() ([]byte, []byte) {
+	inputsOnce.Do(func() {
+		bigVals := make([]interface{}, 2048)
+		for i := range bigVals {
+			bigVals[i] = i
+		}
+		bigBytes = ast.NewHSMSDataMessage("", 2, 1, 0, "H->E", ast.NewListNode(ast.NewUintNode(2, bigVals...), ast.NewIntNode(4, bigVals...)), 1, []byte{0, 0, 0, 1}).ToBytes()
+		var deep ast.ItemNode = ast.NewUintNode(1, 7)
+		for i := 0; i < 140; i++ {
+			deep = ast.NewListNode(deep)
+		}
+		deepBytes = ast.NewHSMSDataMessage("", 3, 1, 0, "H->E", deep, 1, []byte{0, 0, 0, 2}).ToBytes()
+	})
+	return bigBytes, deepBytes
 }
 
 // Op is one operation of the alphabet; Run returns a digest of everything the call returned.
@@ -78,7 +98,7 @@ func msgs(ms []*ast.DataMessage, errs, warns []string) string {
 	return fmt.Sprintf("%s errs=%q warns=%q", sb.String(), errs, warns)
 }
 
-// Ops is the operation alphabet (16 operations).
+// Ops is the operation alphabet (17 operations).
 var Ops = []Op{
 	{"String(template)", func(s *Shared) string { return fmt.Sprint(s.Tmpl) }},
 	{"ToBytes(complete message)", func(s *Shared) string { return fmt.Sprintf("%x", s.Compl.ToBytes()) }},
@@ -111,6 +131,13 @@ var Ops = []Op{
 		return fmt.Sprintf("%s %x", m.Type(), m.ToBytes())
 	}},
 	{"NewHSMSMessageSelectRsp(shared request)", func(s *Shared) string { return fmt.Sprintf("%x", ast.NewHSMSMessageSelectRsp(s.Ctl, 0).ToBytes()) }},
+	{"hsms.Parse(140 nested lists)", func(s *Shared) string {
+		m, ok := hsms.Parse(s.Deep)
+		if !ok {
+			return "refused"
+		}
+		return fmt.Sprintf("%s %x", m.Type(), m.ToBytes())
+	}},
 	{"hsms.Parse(2048-element arrays)", func(s *Shared) string {
 		m, ok := hsms.Parse(s.Big)
 		if !ok {
